@@ -40,7 +40,12 @@ PROP = dict(
           "connection, never both settled and failed, never forwarded after its incoming side was answered and signed; "
           "(G) a forwarded HTLC whose circuit is half-open and loaded from disk after the incoming link finished "
           "reprocessing its packages, with nothing pending and a silent wire for 20 s, is reported as dangling; likewise a "
-          "half-open circuit not loaded from disk whose add is in no mailbox, if no link flapped since the switches started. "
+          "half-open circuit not loaded from disk whose add is in no mailbox, if no link flapped since the switches started; "
+          "(G3) a fully open circuit whose outgoing HTLC was settled by the downstream peer (fulfill received on a live "
+          "connection) while the incoming HTLC is still active, the incoming link is up and owes nothing, the settle is in "
+          "no mailbox and the wire was silent for 20 s is reported as 'paid downstream, not claimed upstream' (lnd keeps a "
+          "response in the incoming link's mailbox until the commitment removing the HTLC is signed and re-delivers it to "
+          "every new link object; the rescue restart is withheld while this precondition holds). "
           "Non-trivial = the lifetimes (first add on the wire .. result known to the sender) of >=2 payments overlapped AND "
           "(a cut fired OR a restart found an HTLC / pending commitment in some durable channel state OR a flap hit a "
           "channel that was not clean). Distinct = "
